@@ -361,6 +361,10 @@ PROPS["C04"] = {"level": "fault_enumeration", "run": crashchecks2.c04, "design":
 
 
 import detcheck  # noqa: E402
+import faults  # noqa: E402
+
+PROPS["C20"] = {"level": "fault_enumeration", "run": faults.c20, "design": "C20"}
+PROPS["C22"] = {"level": "exploration", "run": faults.c22, "design": "C22"}
 
 PROPS["C23"] = {"level": "exploration", "run": detcheck.c23, "design": "C23"}
 
@@ -405,6 +409,14 @@ def replay(pid, spec, path, scratch, t0):
             print(f"  key={key}")
             return 1
         print(f"[{pid}] replay: not reproduced")
+        return 0
+    elif mode == "fault":
+        keys = faults.replay(detail, scratch, pid)
+        if rec.get("key") in keys:
+            print(f"VIOLATION property={pid} replay={path}")
+            print(f"  key={rec.get('key')}")
+            return 1
+        print(f"[{pid}] replay: not reproduced (keys seen: {keys})")
         return 0
     elif mode == "c23":
         keys = detcheck.replay(detail, scratch)
